@@ -240,7 +240,7 @@ class Interp:
                 return None
             if tc is True:
                 return st
-            st.pc = st.pc + (t,)
+            st.pc = st.pc + (("fact", t),)
             return st
         if isinstance(s, ast.If):
             return self._if(s, st, act)
@@ -321,7 +321,7 @@ class Interp:
         if len(e1) <= 1 and len(e2) <= 1:
             pc = base_pc
         else:
-            pc = base_pc + (("or", (_conj(e1), _conj(e2))),)
+            pc = base_pc + (("fact", ("or", (_conj(e1), _conj(e2)))),)
         return _State(env, pc)
 
     def _assigned_names(self, stmts):
@@ -581,11 +581,11 @@ class Interp:
         if k == "ext":
             return ("ext", base[1] + "." + name)
         if (base, name) in self.overlay:
-            return self.overlay[(base, name)]
+            return self._under(self.overlay[(base, name)], st.pc)
         if k == "new":
             h = self.heap[base[2]]
             if name in h["fields"]:
-                return h["fields"][name]
+                return self._under(h["fields"][name], st.pc)
         ci = self.class_of(base)
         if k == "classref":
             ci = self.types.class_by_name.get(base[1])
@@ -619,6 +619,20 @@ class Interp:
                     return ("attr", base, name)
                 return ("clsattr", oc.name, name)
         return ("attr", base, name)
+
+    def _under(self, t, pc):
+        """resolve conditional (phi) values whose condition is decided by the current path
+        condition: a store made under conditions that all hold here is simply the value"""
+        while t[0] == "phi":
+            c = t[1]
+            conj = c[1] if c[0] == "and" else (c,)
+            if all(x in pc or ("fact", x) in pc for x in conj):
+                t = t[2]
+            elif any(("not", x) in pc or (x[0] == "not" and x[1] in pc) for x in conj):
+                t = t[3]
+            else:
+                break
+        return t
 
     def _class_attr_kind(self, ci, name):
         """'const'   : never assigned outside the class body
@@ -1196,11 +1210,21 @@ class Interp:
                    args=tuple(args), kwargs=tuple(sorted(kwargs.items())))
         self.stack.append(callee_act)
         try:
-            self._block(fi.node.body, _State(env, st.pc), callee_act)
+            end = self._block(fi.node.body, _State(env, st.pc), callee_act)
         finally:
             self.stack.pop()
         self._emit("leave", st, node, act, callee=fi.fq)
         rets = callee_act.returns
+        # facts established by asserts on the callee's single exit hold in the caller afterwards
+        exit_pc = None
+        if end is not None and not rets:
+            exit_pc = end.pc
+        elif end is None and len(rets) == 1:
+            exit_pc = rets[0][0]
+        if exit_pc is not None and exit_pc[:len(st.pc)] == st.pc:
+            facts = tuple(c for c in exit_pc[len(st.pc):] if c[0] == "fact")
+            if facts:
+                st.pc = st.pc + facts
         if not rets:
             return CONST_NONE
         n0 = len(st.pc)
